@@ -241,3 +241,71 @@ func VX_C18_QPSInvariant(args []int) {
 	vxAssert(adm <= limit*(ticks+1), "admitted <= capacity per interval")
 	vxCover("c18.qpsinvariant")
 }
+
+func init() { vxRegister("VX_C18_SlotAfterCloseAndLoss", VX_C18_SlotAfterCloseAndLoss) }
+
+func vxClosedChan(c chan struct{}) bool {
+	select {
+	case <-c:
+		return true
+	default:
+		return false
+	}
+}
+
+// VX_C18_SlotAfterCloseAndLoss: an admitted session ends in the most tangled
+// way (a local Close waiting for a running handler while the remote end drops
+// the connection): its slot is released exactly once, so with limit N no more
+// than N sessions are admitted afterwards. args: N
+func VX_C18_SlotAfterCloseAndLoss(args []int) {
+	N := args[0]
+	o := New(LimitConfig{MaxConn: int32(N)})
+	p := erpc.NewPeer(erpc.PeerConfig{}, o)
+	gate := make(chan struct{})
+	entered := make(chan struct{}, 1)
+	p.SetUnknownCall(func(ctx erpc.UnknownCallCtx) (interface{}, *erpc.Status) {
+		entered <- struct{}{}
+		<-gate
+		return []byte("r"), nil
+	})
+	var live []erpc.Session
+	var conns []*vxConn
+	for k := 0; k < N; k++ {
+		c := newVxConn("srv:1", fmt.Sprintf("cli:%d", k))
+		s, st := p.ServeConn(c)
+		vxAssert(st.OK(), "the first N connections are admitted")
+		live = append(live, s)
+		conns = append(conns, c)
+	}
+	// session 0: handler parked, local Close waiting, remote end drops, handler finishes
+	conns[0].feed(vxFrame(erpc.TypeCall, 1, "/park", []byte("x")))
+	vxWaitIdle()
+	vxAssert(len(entered) == 1, "handler entered")
+	done := make(chan struct{})
+	go func() {
+		live[0].Close()
+		close(done)
+	}()
+	vxWaitIdle()
+	conns[0].end()
+	vxWaitIdle()
+	close(gate)
+	vxWaitIdle()
+	vxAssert(vxClosedChan(done), "[C08] Close returned")
+	liveN := N - 1
+	vxAssert(p.CountSession() == liveN, "the ended session left the index")
+	// new connections: exactly one more fits
+	// (two attempts only: a rejected attempt wrongly gives back a slot - recorded finding - which is not what is judged here)
+	admitted := 0
+	for k := 0; k < 2; k++ {
+		c := newVxConn("srv:1", fmt.Sprintf("new:%d", k))
+		_, st := p.ServeConn(c)
+		if st.OK() {
+			admitted++
+		}
+		vxWaitIdle()
+		vxAssert(liveN+admitted <= N, "never more than N sessions admitted concurrently (the ended session's slot was released exactly once)")
+	}
+	vxAssert(admitted == 1, "the released slot is usable again")
+	vxCover("c18.slot-after-close-and-loss")
+}
